@@ -389,8 +389,9 @@ def intermediate_cases(tier: str) -> list[dict]:
             if pv is None or nv is None:
                 break
             refs = [v for kk, v in call.items() if kk in ("a", "b", "c") and rp.is_ref(v)]
-            refs += [v for v in call.get("arrays", [])] + [v for v in call.get("args", [])
-                                                           if rp.is_ref(v)]
+            if call["op"] not in ("arange", "eye"):      # their "args" are numbers
+                refs += [v for v in call.get("arrays", [])] + [
+                    v for v in call.get("args", []) if rp.is_ref(v)]
 
             def same(r: int) -> bool:
                 a, b = pb.values[r - 1], np.asarray(nb.values[r - 1])
